@@ -426,6 +426,7 @@ def buy (cx : DCtx) (c : TokenCfg) (s : DState) (r : Req) : Outcome × DState :=
               book := setAsks s.book r.name (newOrderList cx ck.ins.asks fills)
               positions := AList.set s.positions r.name
                 (boughtPosition cx (AList.get? s.positions r.name) r ck (avgPrice cx fills))
+              cache := none   -- the valuation kept for the closed minutes of the hour is about the holdings before the trade
               actions := s.actions ++ [.buy (tradeRec cx r ck fills prem fee)] })
 
 /-- `sell` (behind `write_func`) -/
@@ -450,6 +451,7 @@ def sell (cx : DCtx) (c : TokenCfg) (s : DState) (r : Req) : Outcome × DState :
                   book := setBids s.book r.name (newOrderList cx ck.ins.bids fills)
                   positions := if p'.amount ≤ 0 then AList.erase s.positions r.name
                                else AList.set s.positions r.name p'
+                  cache := none
                   actions := s.actions ++ [.sell (tradeRec cx r ck fills prem fee)] })
 
 /-- `deposit` (not behind `write_func`) -/
